@@ -156,9 +156,11 @@ def run(pid, tier):
                     return sum(x << (14 * i) for i, x in enumerate(l))
                 W = sum(val(w) for w in ev.get('wq', []))
                 other = [k for k in range(len(ev.get('wq', []))) if k not in zr and abs(val(ev["len"][k]) * W - (val(ev["wq"][k]) << 64)) > (W << tol)] if W else []
-                o.finding(kind='float-law', ty=ev.get('ft'), symptom='zero-weight-residue' if zr and not other else 'law', hist=ev.get('hist'), show=ev.get('show'),
+                # after a history the subtotals carry rounding residues of EARLIER totals (known finding); a fresh tree has no such excuse
+                sym = 'zero-weight-residue' if zr and not other else ('history-residue' if ev.get('hist') else 'law')
+                o.finding(kind='float-law', ty=ev.get('ft'), symptom=sym, hist=ev.get('hist'), show=ev.get('show'),
                           zero_weight_indices=zr, event={k: v for k, v in ev.items() if k not in ('len', 'wq')},
-                          signature='float-law:%s:%s' % (ev.get('ft'), 'zero-weight-residue' if zr and not other else 'law'))
+                          signature='float-law:%s:%s' % (ev.get('ft'), sym))
         o.samples.append({'kind': 'float tree law event', 'event': json.loads(fl.read_text().splitlines()[0])})
     o.assumptions = [
         'rand 0.10.2 word->value maps (random_range) are measured on a clone of the scripted stream, not re-modelled',
